@@ -55,3 +55,47 @@ Theorem C16_shape_as_written :
     /\ i_early i = early.
 Proof. exact compile_shape_as_written. Qed.
 Print Assumptions C16_shape_as_written.
+
+(* machines, AGVs, tools and outages of the compiled instance are those written in the document, with the documented defaults: every machine gets the
+   pre- and post-buffer specification given for it (global or per machine; otherwise the unbounded flex default), a one-slot internal buffer, the
+   setup matrix written for it and exactly the outage definitions that name it or all machines; every AGV a one-slot buffer and the transport
+   outages (none for the default one-AGV-per-job logistics); every operation the tool tool_usage lists at its position (tool 0 without tool_usage) *)
+Theorem C16_machines_as_written :
+  forall (d : ddoc) (early : bool) (i : inst) (L : labels) (m : nat) (mc : mcfg),
+    compile_inst d early = Ok (i, L) -> nth_error (i_machs i) m = Some mc ->
+    exists nmach st, nm d = Ok nmach /\ setup_of d m nmach = Ok st
+      /\ mc = mkMCfg (apply_spec (default_buf RComponent) (fst (mach_specs d m))) inner_buf
+                     (apply_spec (default_buf RComponent) (snd (mach_specs d m))) st (outages_for d true m).
+Proof. exact compile_machines_as_written. Qed.
+Print Assumptions C16_machines_as_written.
+
+Theorem C16_agvs_as_written :
+  forall (d : ddoc) (early : bool) (i : inst) (L : labels) (ac : acfg),
+    compile_inst d early = Ok (i, L) -> In ac (i_trans i) ->
+    ac = mkACfg inner_buf (match match d_log d with Some lg => dl_amount lg | None => None end with
+                           | Some _ => outages_for d false 0%nat | None => [] end).
+Proof. exact compile_agvs_as_written. Qed.
+Print Assumptions C16_agvs_as_written.
+
+Theorem C16_tools_as_written :
+  forall (d : ddoc) (early : bool) (i : inst) (L : labels) (j : nat) (ops : list opcfg) (k : nat) (oc : opcfg),
+    compile_inst d early = Ok (i, L) -> nth_error (i_jobs i) j = Some ops -> nth_error ops k = Some oc ->
+    match d_tools d with
+    | None => oc_tool oc = 0%nat
+    | Some tu => exists ts, nth_error tu j = Some ts /\ nth_error ts k = Some (oc_tool oc)
+    end.
+Proof. exact compile_tools_as_written. Qed.
+Print Assumptions C16_tools_as_written.
+
+(* the setup matrix is compiled row = from-tool, column = to-tool: the entry the state machine looks up for (mounted tool a, tool of the next operation b)
+   on machine m is the cell written in the row of tool a under the column of tool b of the matrix the document gives for m - for every matrix size,
+   rows in any order (with C09: the handler reads matrix[(mounted, new)]) *)
+Theorem C16_setup_direction :
+  forall d m nmach l hdr rows st a b row v,
+    d_setup d = Some l -> find (fun e => Nat.eqb (fst e) m) l = Some (m, (hdr, rows)) -> setup_of d m nmach = Ok st ->
+    In row rows -> fst row = a -> (forall r', In r' rows -> fst r' = a -> r' = row) ->
+    scell_of hdr b row = Some (b, v) ->
+    setup_lookup st a b = Some (Det v).
+Proof. exact setup_direction. Qed.
+Print Assumptions C16_setup_direction.
+
